@@ -692,6 +692,22 @@ class BuiltinMixin:
         self.init_class_defaults(st, obj, cv.ci)
         return self.ok(st, SV(obj.term, 'ref', cv.ci, True))
 
+    def bi_inspect_getfullargspec(self, st, args, node):
+        """inspect.getfullargspec(f): for a callable the class table does not know, a 7-tuple whose first entry is a fresh list of
+        unknown length (the argument names); raises nothing (A: validators are introspectable callables)"""
+        (f,) = self.one_pos(args, 1, 'getfullargspec')
+        st = st.copy()
+        if isinstance(f, FuncV):
+            names = [self.py_str(a_.arg) for a_ in f.fi.node.args.posonlyargs + f.fi.node.args.args]
+            lst = self.new_list(st, self.seq_of_terms([self.to_term(st, x) for x in names]))
+        else:
+            lst = self.new_list(st, smt.fresh('argnames', smt.SeqV))
+        self.assumptions_used.add('inspect.getfullargspec(<unknown callable>): a tuple whose first entry is a list of unknown length; never raises')
+        rest = [SV(smt.fresh('argspec', Val)) for _ in range(6)]
+        o = self.alloc(st, self.cls('tuple'))
+        st.LS = z3.Store(st.LS, r_of(o.term), self.seq_of_terms([lst.term] + [x.term for x in rest]))
+        return self.ok(st, SV(o.term, 'ref', self.cls('tuple'), True))
+
     def bi_inspect_ismethod(self, st, args, node):
         (v,) = self.one_pos(args, 1, 'ismethod')
         if isinstance(v, BoundV):
